@@ -403,3 +403,5 @@ META = {
     'technique': 'call-graph reachability with an effect table (stdout writers) + syntactic pairing rule with a finite '
                  'ordering-domain kernel for the exhaustion test',
 }
+
+META['explanation'] += ' ' + 'Further: nobody but the command line writes the limit, sys.stdout is never re-bound (incl. redirect_stdout); print_guess reaches its write on every non-debug path.'
